@@ -960,6 +960,56 @@ func checkC12(c *Ctx, r *Report) {
 	}
 	r.Infos["tainted_values"] = len(tn.tainted)
 
+	// ---- C12-filepath: a stored message is remote-controlled content, including any X-FilePath
+	// header the remote put in it. SetUnread rewrites the file named by that header, so whoever
+	// loads a message from disk must REPLACE the header with the path the file was opened from.
+	r.Rule("C12-filepath", 1, "a message loaded from disk carries the path it was loaded from, not one stored in the file")
+	if fn := c.Func(pkg, "OpenMessage"); fn == nil {
+		r.Fail("C12-filepath", "anchor mailbox.OpenMessage not found")
+	} else {
+		var opened ssa.Value
+		for _, ci := range callsTo(fn, false, "os.Open", "os.OpenFile") {
+			opened = ci.Common().Args[0]
+		}
+		var sets []ssa.CallInstruction
+		adds := 0
+		for _, ci := range allCalls(fn) {
+			n := callName(ci.Common())
+			if n != "fbb.Header.Set" && n != "fbb.Header.Add" {
+				continue
+			}
+			if k, _ := constString(ci.Common().Args[1]); k != "X-FilePath" {
+				continue
+			}
+			if n == "fbb.Header.Add" {
+				adds++
+				continue
+			}
+			if opened != nil && (ci.Common().Args[2] == opened || sameTerm(ci.Common().Args[2], opened)) {
+				sets = append(sets, ci)
+			}
+		}
+		good := len(sets) > 0 && adds == 0
+		for _, ret := range returnsOf(fn) {
+			if isNilConst(resOf(ret, 0)) {
+				continue
+			}
+			dom := false
+			for _, s := range sets {
+				if instrDominates(s, ret) {
+					dom = true
+				}
+			}
+			if !dom {
+				good = false
+			}
+		}
+		r.Check("C12-filepath", fnName(fn), "X-FilePath replaced by the opened path", c.pos(fn.Pos()), good,
+			"every message returned had X-FilePath set (replacing any stored value) to the path passed to os.Open", "a message can be returned whose X-FilePath is not replaced by the path it was opened from (e.g. Header.Add keeps a value stored in the file first): a received message carrying 'X-FilePath: /any/path' makes a later SetUnread write that path with the remote's content")
+	}
+	// every other reader of X-FilePath in the package only uses it for messages (nothing else to check
+	// statically: SetUnread receives the message from its caller)
+
 	// ---- C12-localid: identifiers handed to SetSent/SetDeferred (the MID of a local outbox file,
 	// which a session takes from that file's Mid header - any string). Either they are checked like
 	// remote values, or every mutation they reach is a rename between two *symmetric* names
